@@ -233,6 +233,18 @@ func (p *PX) term(v ssa.Value, fr *pxFrame, st *pxState) *Term {
 			nb := &Term{K: TConst, C: sum, T: b.T, key: sum.String()}
 			a, b = a.A, nb
 		}
+		// x - x is 0 and x - (x - c) is c, whatever x (modular arithmetic): `at := total - left`
+		// with left counting down from total
+		if x.Op == token.SUB && a.K != TConst {
+			if _, _, isInt := intTypeInfo(p.w, v.Type()); isInt {
+				if a.key == b.key {
+					return zeroTerm(v.Type())
+				}
+				if b.K == TBin && b.Op == token.SUB && b.B.K == TConst && b.A.key == a.key && types.Identical(b.T, v.Type()) {
+					return &Term{K: TConst, C: b.B.C, T: v.Type(), key: b.B.C.String()}
+				}
+			}
+		}
 		// (y + c1) - c2 and (y - c1) + c2 with c1 == c2 is y (len(append(s, x)) - 1)
 		if (x.Op == token.SUB || x.Op == token.ADD) && b.K == TConst && a.K == TBin && a.B.K == TConst && a.B.C.Cmp(b.C) == 0 &&
 			((x.Op == token.SUB && a.Op == token.ADD) || (x.Op == token.ADD && a.Op == token.SUB)) && types.Identical(a.T, v.Type()) {
@@ -273,6 +285,10 @@ func (p *PX) term(v ssa.Value, fr *pxFrame, st *pxState) *Term {
 			if t := p.w.ctabTermOf(v, func(iv ssa.Value) *Term { return p.term(iv, fr, st) }); t != nil {
 				return t
 			}
+			// a cell of a local array used as a table (pxlocaltab.go)
+			if t := p.localTabLoad(x.X, fr, st); t != nil {
+				return t
+			}
 			// a load from a read-only package table: what the initialiser stored there (roinit.go)
 			if g, ok := x.X.(*ssa.Global); ok {
 				if t := p.roGlobalSlice(g, v.Type()); t != nil {
@@ -302,7 +318,7 @@ func (p *PX) term(v ssa.Value, fr *pxFrame, st *pxState) *Term {
 				if cell, isCell := p.cellOf(fa.X, fr); isCell {
 					fk := fmt.Sprintf("%s.%d", strings.TrimSuffix(cell, "*"), fa.Field)
 					if t, ok := st.vals[fk]; ok {
-						if p.fieldVerKey(fieldID(fa), st) == p.localFieldVer(fk, st) {
+						if p.fieldVerKey(fieldID(fa), st) == p.localFieldVer(fk, st) || p.w.purelyLocalAddr(fa.X) {
 							return t
 						}
 					} else if whole, ok := st.vals[cell]; ok {
@@ -310,6 +326,9 @@ func (p *PX) term(v ssa.Value, fr *pxFrame, st *pxState) *Term {
 							return t
 						}
 					}
+				}
+				if t := p.arrayCellLoad(fa, fr, st); t != nil {
+					return t // a row of a private local array of structs (pxarrcell.go)
 				}
 				key := p.fieldLoadKey(fa, fr, st)
 				if t, ok := st.vals["mem:"+key]; ok {
@@ -332,6 +351,16 @@ func (p *PX) term(v ssa.Value, fr *pxFrame, st *pxState) *Term {
 					return &Term{K: TLeaf, V: v, T: v.Type(), key: "<*" + strings.TrimSuffix(cell, "*") + ">"}
 				}
 			}
+			// a local array of structs only accessed by constant index (pxlocalarray.go):
+			// the whole array as an aggregate of what was stored, or one field of an element
+			if al, ok := x.X.(*ssa.Alloc); ok {
+				if t := p.localArrayValue(al, fr, st); t != nil {
+					return t
+				}
+			}
+			if t := p.localArrayFieldLoad(x.X, fr, st); t != nil {
+				return t
+			}
 			// load of a local variable: the value last stored on this path
 			if al, ok := x.X.(*ssa.Alloc); ok {
 				if t, ok := st.vals[p.reg(fr, al)+"*"]; ok {
@@ -349,6 +378,11 @@ func (p *PX) term(v ssa.Value, fr *pxFrame, st *pxState) *Term {
 							any = true
 						} else {
 							ft = &Term{K: TLeaf, T: stt.Field(i).Type(), key: "zero:" + types.TypeString(stt.Field(i).Type(), nil)}
+							// (a boolean / integer field the literal leaves out is false / 0:
+							// `listHeader{tag: t, hasLen: true}` has hasType == false)
+							if z := zeroOf(stt.Field(i).Type()); z != nil && (z.K == TBoolConst || z.K == TConst) {
+								ft = z
+							}
 						}
 						args = append(args, ft)
 						keys = append(keys, ft.key)
@@ -356,6 +390,11 @@ func (p *PX) term(v ssa.Value, fr *pxFrame, st *pxState) *Term {
 					if any {
 						return &Term{K: TPure, Name: "struct", Args: args, T: x.Type(), key: "struct{" + strings.Join(keys, ",") + "}"}
 					}
+				}
+				// a local array loaded as a whole (`range` over an array of parts): the
+				// cells stored on this path (pxarray.go)
+				if t := p.localArrayValueD(al, fr, st); t != nil {
+					return t
 				}
 			}
 			// *(*T)(unsafe.Pointer(&cell)) with T an integer type of the cell's width:
@@ -374,6 +413,10 @@ func (p *PX) term(v ssa.Value, fr *pxFrame, st *pxState) *Term {
 				}
 			}
 			if ia, ok := x.X.(*ssa.IndexAddr); ok {
+				// a whole row of a private local array of structs (pxarrcell.go)
+				if t := p.arrayRowLoad(ia, fr, st); t != nil {
+					return t
+				}
 				// element of a package-level lookup table that is constant after initialisation
 				if t := p.tableLoad(ia, v.Type(), fr, st); t != nil {
 					return t
@@ -412,9 +455,13 @@ func (p *PX) term(v ssa.Value, fr *pxFrame, st *pxState) *Term {
 		return &Term{K: TLeaf, V: v, T: v.Type(), key: fmt.Sprintf("fld(%s,.%d)", a.key, x.Field)}
 	case *ssa.IndexAddr:
 		a, i := p.term(x.X, fr, st), p.term(x.Index, fr, st)
+		if isPrefixTerm(a) {
+			a = a.Args[0] // an element of arr[:k] is the element of arr
+		}
 		if t := p.roIndexAddr(a, i, v.Type()); t != nil {
 			return t
 		}
+		i = p.decidedIndex(a, i, st)
 		return &Term{K: TLeaf, V: v, T: v.Type(), key: "idx(" + a.key + "," + i.key + ")"}
 	case *ssa.Convert:
 		a := p.term(x.X, fr, st)
@@ -447,7 +494,7 @@ func (p *PX) term(v ssa.Value, fr *pxFrame, st *pxState) *Term {
 			return p.term(x.X, fr, st)
 		}
 	case *ssa.Index:
-		if a := p.term(x.X, fr, st); (a.K == TPure && a.Name == "roval") || a.CV != nil {
+		if a := p.term(x.X, fr, st); (a.K == TPure && (a.Name == "roval" || a.Name == "array")) || a.CV != nil {
 			if i := p.term(x.Index, fr, st); i.K == TConst && i.C.IsInt64() {
 				if t := p.componentOf(a, int(i.C.Int64()), fr, st); t != nil {
 					return t
@@ -475,6 +522,10 @@ func (p *PX) term(v ssa.Value, fr *pxFrame, st *pxState) *Term {
 		if al, ok := wholeLocalArray(x); ok {
 			return p.term(al, fr, st)
 		}
+		// `arr[:k]`: the first k cells of the array (pxlocalarray.go)
+		if al, ok := prefixOfLocalArray(x); ok && !p.views {
+			return p.prefixTerm(x, al, fr, st)
+		}
 	case *ssa.Call:
 		if t, ok := st.vals[p.reg(fr, v)]; ok {
 			return t
@@ -489,6 +540,24 @@ func (p *PX) term(v ssa.Value, fr *pxFrame, st *pxState) *Term {
 				return p.term(ms.Len, fr, st)
 			}
 			a := p.term(c.Args[0], fr, st)
+			// a slice made on this path and carried here by a variable cell (a captured
+			// `fldList` assigned by one closure, measured by the next): the length it was made
+			// with — a slice value never changes its length
+			if _, isMk := a.V.(*ssa.MakeSlice); isMk && a.K == TLeaf && !p.views {
+				if ml, ok := st.vals["mklenx:"+a.key]; ok {
+					return ml
+				}
+			}
+			if isPrefixTerm(a) {
+				return a.Args[1] // len(arr[:k]) = k
+			}
+			if nc, ok := a.V.(*ssa.Const); ok && a.K == TLeaf && nc.Value == nil {
+				// len of the nil slice / map handed down as an argument (`pack(tag, 0, nil)`)
+				switch a.T.Underlying().(type) {
+				case *types.Slice, *types.Map:
+					return &Term{K: TConst, C: new(big.Int), T: v.Type(), key: "0"}
+				}
+			}
 			if al, ok := a.V.(*ssa.Alloc); ok && a.K == TLeaf && !p.views {
 				if n, ok := localArrayLen(al); ok && isSliceOrArrayPtr(c.Args[0].Type()) {
 					nb := big.NewInt(n)
@@ -523,11 +592,44 @@ func (p *PX) term(v ssa.Value, fr *pxFrame, st *pxState) *Term {
 		} else if sc := c.StaticCallee(); sc != nil {
 			name = qualifiedFnName(sc)
 		}
+		// a library function called through a function value known on the path (a method
+		// value `be16 := binary.BigEndian.Uint16`, `unix := date.Unix`; pxlibfv.go): the
+		// same call with the bound receiver put back in front
+		var fvRecv *Term
+		cargs := c.Args
+		if sc := c.StaticCallee(); !c.IsInvoke() && (sc == nil || len(sc.FreeVars) > 0) {
+			if lf, recv := p.libFuncValue(c, fr, st); lf != nil {
+				name, fvRecv = qualifiedFnName(lf), recv
+				if recv != nil {
+					cargs = append([]ssa.Value{nil}, c.Args...)
+				}
+			}
+		}
 		// binary.BigEndian.UintNN over a buffer whose octets are known terms
-		if n := map[string]int{"(encoding/binary.bigEndian).Uint16": 2, "(binary.bigEndian).Uint16": 2, "(encoding/binary.bigEndian).Uint32": 4, "(binary.bigEndian).Uint32": 4, "(encoding/binary.bigEndian).Uint64": 8, "(binary.bigEndian).Uint64": 8}[name]; n > 0 && len(c.Args) == 2 {
-			if bs := p.byteSeqOf(c.Args[1], fr, st); bs != nil && len(bs.Oct) >= n {
+		if n := map[string]int{"(encoding/binary.bigEndian).Uint16": 2, "(binary.bigEndian).Uint16": 2, "(encoding/binary.bigEndian).Uint32": 4, "(binary.bigEndian).Uint32": 4, "(encoding/binary.bigEndian).Uint64": 8, "(binary.bigEndian).Uint64": 8}[name]; n > 0 && len(cargs) == 2 {
+			if bs := p.byteSeqOf(cargs[1], fr, st); bs != nil && len(bs.Oct) >= n {
 				if t := beTerm(bs.Oct[:n], v.Type()); t != nil {
 					return t
+				}
+			}
+		}
+		// a call through a method value of a library method (`size := vv.Len` … `size()`)
+		// is the call of the method on the bound receiver (pxmethodval.go)
+		var boundRecv *Term
+		if name == "" {
+			if m, recv := p.boundLibMethod(x, fr, st); m != nil {
+				name, boundRecv = qualifiedFnName(m), recv
+			}
+		}
+		// a pure getter called through a method value known on this path (`locate :=
+		// target.Pointer; … locate()`): the same pure term as `target.Pointer()`, the
+		// receiver being the value bound when the method value was made (pxfuncs.go)
+		if name == "" && !c.IsInvoke() {
+			if _, isB := c.Value.(*ssa.Builtin); !isB {
+				if fn, _, recv := p.funcValueCallee(x, fr, st); fn != nil && recv != nil {
+					if n := qualifiedFnName(fn); pureMethods[n] || p.extraPure[n] {
+						name, boundRecv = n, recv
+					}
 				}
 			}
 		}
@@ -538,6 +640,14 @@ func (p *PX) term(v ssa.Value, fr *pxFrame, st *pxState) *Term {
 				a := p.term(c.Value, fr, st)
 				args = append(args, a)
 				keys = append(keys, a.key)
+			}
+			if boundRecv != nil {
+				args = append(args, boundRecv)
+				keys = append(keys, boundRecv.key)
+			}
+			if fvRecv != nil {
+				args = append(args, fvRecv)
+				keys = append(keys, fvRecv.key)
 			}
 			for _, a := range c.Args {
 				ta := p.term(a, fr, st)
@@ -721,6 +831,8 @@ func (p *PX) instrs(fr *pxFrame, b *ssa.BasicBlock, from int, st *pxState, k pxC
 			cell := p.reg(fr, x) + "*"
 			delete(st.vals, cell)
 			delete(st.bseq, cell)
+			p.localArrayReset(x, fr, st)
+			p.arrayCellReset(x, fr, st)
 			if pt, ok := x.Type().Underlying().(*types.Pointer); ok {
 				if z := zeroOf(pt.Elem()); z != nil {
 					st.vals[cell] = z
@@ -748,7 +860,12 @@ func (p *PX) instrs(fr *pxFrame, b *ssa.BasicBlock, from int, st *pxState, k pxC
 		case *ssa.Store:
 			// a whole-struct store advances the versions of all fields of the type: first,
 			// so that the components recorded for a local (splitStruct) carry the new versions
-			p.structStore(x, st)
+			// (a variable nobody else can point to aliases nothing: pxlocalstruct.go)
+			if !p.w.purelyLocalAddr(x.Addr) {
+				p.structStore(x, st)
+			}
+			// rows of a private local array of structs built in place (pxarray.go)
+			p.localRowStore(x, fr, st)
 			// local variable cells and symbolic byte sequences
 			if al, ok := x.Addr.(*ssa.Alloc); ok {
 				vt := p.term(x.Val, fr, st)
@@ -775,7 +892,10 @@ func (p *PX) instrs(fr *pxFrame, b *ssa.BasicBlock, from int, st *pxState, k pxC
 			}
 			if fa, ok := x.Addr.(*ssa.FieldAddr); ok {
 				vt := p.term(x.Val, fr, st)
-				p.bumpField(fieldID(fa), st)
+				p.arrayCellStore(fa, vt, fr, st) // a row of a private local array of structs (pxarrcell.go)
+				if !p.w.purelyLocalAddr(fa) {
+					p.bumpField(fieldID(fa), st)
+				}
 				if al, isLocal := fa.X.(*ssa.Alloc); isLocal {
 					fk := fmt.Sprintf("%s.%d", p.reg(fr, al), fa.Field)
 					st.vals[fk] = vt
@@ -806,6 +926,8 @@ func (p *PX) instrs(fr *pxFrame, b *ssa.BasicBlock, from int, st *pxState, k pxC
 				}
 			}
 			p.byteStore(x, fr, st)
+			p.localArrayStore(x, fr, st) // &localArray[i].field (pxlocalarray.go)
+			p.localTabStore(x, fr, st)   // a cell of a local array used as a table (pxlocaltab.go)
 		case *ssa.MapUpdate:
 			// remembered for rules about tables kept in struct fields (numbering)
 			if ld, ok := x.Map.(*ssa.UnOp); ok {
@@ -1233,7 +1355,7 @@ func (p *PX) havocLoopKeep(fr *pxFrame, lp *loopInfo, st *pxState, keep map[stri
 		if keep[reg] {
 			continue
 		}
-		if keep == nil && loopRememberers(lp)[phi] {
+		if keep == nil && (loopRememberers(lp)[phi] || loopFlagRememberers(lp)[phi]) {
 			// a variable that only remembers a counter of this loop: on the first entry
 			// it keeps its initial value ("never assigned"); "assigned in some
 			// iteration" is the second generic iteration (see enter)
@@ -1250,10 +1372,14 @@ func (p *PX) havocLoopKeep(fr *pxFrame, lp *loopInfo, st *pxState, keep map[stri
 						st.env[fresh.key] = top.Intersect(ISet{{is.Min(), new(big.Int).Sub(top.Max(), big.NewInt(step))}})
 						// a loop tested at the bottom keeps `counter < n` at its header (pxhavoc3.go)
 						p.bottomTestBound(fr, lp, phi, fresh, init, st)
+						// rotated loop (`for j := range n`): j < n is an invariant of the header (pxrotated.go)
+						p.rotatedCounterBound(fr, lp, phi, fresh, init, st)
 					} else {
 						st.env[fresh.key] = top.Intersect(ISet{{new(big.Int).Sub(top.Min(), big.NewInt(step)), is.Max()}})
 						p.downCounterBounds(fresh, init, st)
 					}
+					// a counter stopped by `== c` / `!= c` does not step over c (pxeqexit.go)
+					st.env[fresh.key] = eqExitBound(lp, phi, step, is, st.env[fresh.key])
 				}
 			}
 		}
@@ -1270,6 +1396,7 @@ func (p *PX) havocLoopKeep(fr *pxFrame, lp *loopInfo, st *pxState, keep map[stri
 				}
 				if fa, ok := x.Addr.(*ssa.FieldAddr); ok {
 					p.bumpField(fieldID(fa), st)
+					p.arrayCellHavoc(fa, fr, st)
 				}
 			}
 		}
